@@ -598,6 +598,47 @@ def judge_inter(inp, obs, lr):
 
 
 # ------------------------------------------------------------------------------------------------
+# 4b. utils.broadcast_match (the pairing of units behind broadcast="pairwise"): model broadcastMatch
+# ------------------------------------------------------------------------------------------------
+def gen_bmatch(rng, n):
+    for _ in range(n):
+        n1, n2 = rng.choice([1, 1, 2, 3, 4]), rng.choice([1, 2, 2, 3, 4])
+        u1 = [rng.randint(1, 3), rng.randint(1, 3)]
+        u2 = [rng.randint(1, 3), rng.randint(1, 3)]
+        a1 = [[[rng.randint(-9, 9) for _ in range(u1[1])] for _ in range(u1[0])] for _ in range(n1)]
+        a2 = [[[rng.randint(-9, 9) for _ in range(u2[1])] for _ in range(u2[0])] for _ in range(n2)]
+        yield {"n1": n1, "n2": n2, "u1": u1, "u2": u2, "a1": a1, "a2": a2}
+
+
+def run_bmatch(inp):
+    a1, a2 = np.array(inp["a1"], dtype=np.int64), np.array(inp["a2"], dtype=np.int64)
+    t1, t2 = U.broadcast_match(a1, a2, 2)
+    t1, t2 = np.asarray(t1), np.asarray(t2)
+    return {"shape1": list(t1.shape), "shape2": list(t2.shape),
+            "t1": t1.reshape((-1,) + tuple(inp["u1"])).tolist(), "t2": t2.reshape((-1,) + tuple(inp["u2"])).tolist()}
+
+
+def lean_bmatch(inp, obs):
+    return [{"op": "c16.broadcast_match", "a1": inp["a1"], "a2": inp["a2"]}]
+
+
+def judge_bmatch(inp, obs, lr):
+    tags0 = {"site": "utils.broadcast_match"}
+    if "exc" in obs:
+        return {"expected": "tiled arrays", "observed": obs, "tags": dict(tags0, exc=obs["exc"])}
+    r = lr[0]
+    if "err" in r:
+        return {"expected": "model answer", "observed": r, "tags": dict(tags0, driver_err=r["err"])}
+    want1, want2 = [inp["n1"], inp["n2"]] + inp["u1"], [inp["n1"], inp["n2"]] + inp["u2"]
+    if obs["shape1"] != want1 or obs["shape2"] != want2:
+        return {"expected": {"shapes": [want1, want2]}, "observed": [obs["shape1"], obs["shape2"]], "tags": dict(tags0, shape=True)}
+    m1, m2 = r["ok"]
+    if m1 != obs["t1"] or m2 != obs["t2"]:
+        return {"expected": {"model": r["ok"]}, "observed": [obs["t1"], obs["t2"]], "tags": dict(tags0, values=True)}
+    return None
+
+
+# ------------------------------------------------------------------------------------------------
 # 5. eigenvector / diagonalize: eig contract observed, selection executed in the model
 # ------------------------------------------------------------------------------------------------
 def gen_eig(rng, n):
@@ -1762,6 +1803,9 @@ CLAUSES = [
     Clause("hyperplane_corr", "corr", gen_hyp, run_hyp, judge_hyp, lean=lean_hyp,
            site="projective.hyperplane_coordinate_transform", budget={"quick": 60, "thorough": 1500},
            what="observed QR factors -> model sign(r00)*Q vs returned matrix; exact residuals of the QR/inverse contracts and of orthogonality"),
+    Clause("broadcast_match_corr", "corr", gen_bmatch, run_bmatch, judge_bmatch, lean=lean_bmatch,
+           site="utils.broadcast_match", budget={"quick": 60, "thorough": 600},
+           what="utils.broadcast_match(a1, a2, 2) on flat composites of integer units vs Lean broadcastMatch: tiled shapes and every unit of both tiled arrays, in row-major order (first index slowest)"),
     Clause("intersect_corr", "corr", gen_inter, run_inter, judge_inter, lean=lean_inter,
            site="projective.Subspace.intersect", budget={"quick": 80, "thorough": 2000},
            what="observed kernel -> model intersect vs returned spanning set, per unit, elementwise and pairwise order, ℚ and ℚ(i); exact kernel-contract residual"),
